@@ -12,8 +12,9 @@ import AgVerif.Proof.SweepSound
 import AgVerif.Proof.SweepAssembled
 import AgVerif.Proof.SweepLookup
 import AgVerif.Proof.SweepClosure
+import AgVerif.Proof.SweepPayloadSpec
 namespace AgVerif.C02
-open AgVerif.Insn AgVerif.Sweep AgVerif.Gen
+open AgVerif.Insn AgVerif.Sweep AgVerif.Gen AgVerif.Spec
 
 /-- Termination argument: every object one loop iteration builds has positive length (instructions: the generated
     `length` table; `Instruction00x.length = 0` is harmless because its constructor always raises). -/
@@ -182,6 +183,56 @@ theorem sweep_done_consumes_all (odex : Bool) (size : Nat) (bs : List Nat) (idx 
     idx + totalLen ((sweep odex size bs idx).1.map Prod.snd) = maxIdxOf size bs :=
   sweepFrom_done_total odex bs (maxIdxOf size bs) _ idx (Nat.le_refl _) hidx hd
 
+/-! ### the payload codec against the independent layout specification (Spec/DalvikPayload.lean)
+
+`assemble`, `Item.raw` and the payload constructors are all model code; the three theorems below anchor them to the
+byte layout of the Dalvik bytecode document (ident, size, first_key / keys, targets, element_width, data, padding),
+written in a file that imports nothing. -/
+
+/-- `get_raw()` of every well-formed payload item is exactly the document's layout of the payload it denotes
+    (field order, widths, little-endian two's complement, padding byte after odd array data), that payload is
+    well-formed, and `get_length()` is the document's number of code units. -/
+theorem payload_raw_eq_spec (it : Item) (hv : ValidPayload it = true) :
+    ∃ p pad, payloadOf it = some (p, pad) ∧ DalvikPayload.WellFormed p ∧ DalvikPayload.PaddingOK p pad ∧
+      it.raw = some (DalvikPayload.payloadBytes pad p) ∧ it.length = 2 * DalvikPayload.units p :=
+  payload_raw_eq_spec_all it hv
+
+/-- The classes decode the specification's bytes: for EVERY well-formed specification payload and admissible padding,
+    one loop iteration on its document layout followed by any bytes builds the item holding exactly its contents
+    (`itemOf`: size = number of targets / keys, first_key, keys, targets, element_width, size, data ++ padding), of
+    the document's length. -/
+theorem spec_payload_decodes (p : DalvikPayload.Payload) (pad : List Nat) (hw : DalvikPayload.WellFormed p)
+    (hp : DalvikPayload.PaddingOK p pad) (rest : List Nat) :
+    build false (DalvikPayload.payloadBytes pad p ++ rest) = some (itemOf pad p) ∧
+      (itemOf pad p).length = 2 * DalvikPayload.units p ∧
+      (DalvikPayload.payloadBytes pad p).length = 2 * DalvikPayload.units p :=
+  spec_payload_decodes_all p pad hw hp rest
+
+/-- Through the sweep, arbitrary bytes: every payload item a (non-ODEX) sweep yields denotes a well-formed
+    specification payload whose document layout is exactly the code bytes at the item's offset. -/
+theorem sweep_payload_layout (size : Nat) (bs : List Nat) (idx : Nat) (hb : AllBytes bs) :
+    ∀ q ∈ (sweep false size bs idx).1, ∀ p pad, payloadOf q.2 = some (p, pad) →
+      DalvikPayload.WellFormed p ∧ DalvikPayload.PaddingOK p pad ∧
+      (bs.drop q.1).take q.2.length = DalvikPayload.payloadBytes pad p ∧ q.2.length = 2 * DalvikPayload.units p := by
+  intro q hq p pad hpo
+  have hvalid := sweep_valid size bs idx hb
+  have hvi : ValidItem q.2 = true :=
+    List.all_eq_true.mp hvalid q.2 (List.mem_map.mpr ⟨q, hq, rfl⟩)
+  have hvp : ValidPayload q.2 = true := by
+    cases hq2 : q.2 with
+    | insn f x => rw [hq2] at hpo; simp [payloadOf] at hpo
+    | packed a b c => rw [hq2] at hvi; exact hvi
+    | sparse a b c => rw [hq2] at hvi; exact hvi
+    | fill a b c => rw [hq2] at hvi; exact hvi
+  obtain ⟨p', pad', hpo', hw, hpad, hraw, hlen⟩ := payload_raw_eq_spec_all q.2 hvp
+  rw [hpo] at hpo'
+  simp only [Option.some.injEq, Prod.mk.injEq] at hpo'
+  obtain ⟨rfl, rfl⟩ := hpo'
+  have hs := (sweep_sound false size bs idx hb q hq).2.2.2.2
+  rw [hraw] at hs
+  simp only [Option.some.injEq] at hs
+  exact ⟨hw, hpad, hs.symm, hlen⟩
+
 /-! ### non-vacuity and the repaired witnesses -/
 
 -- D2: `ff 01 00 00` is const-method-type v1 (opcode 0xff with a register byte)
@@ -206,5 +257,15 @@ example : sweep false 9 [0, 0, 0x00, 0x01, 0x01, 0x00, 5, 0, 0, 0, 0xfd, 0xff, 0
 example : Valid [.insn .f10x ⟨.f10x, 0, []⟩, .insn .f11n ⟨.f11n, 0x12, [1, -1]⟩, .packed 2 5 [-3, 7],
     .sparse 1 [9] [-2], .fill 1 3 [7, 8, 9, 0], .insn .f35c ⟨.f35c, 0x6e, [2, 3, 1, 2, 0, 0, 0]⟩,
     .insn .f21c ⟨.f21c, 0xff, [1, 0]⟩] = true := by decide +kernel
+
+-- the specification layout of a packed-switch payload (first_key 5, one target -3) and of odd-length array data
+example : DalvikPayload.payloadBytes [] (.packedSwitch 5 [-3]) =
+    [0x00, 0x01, 0x01, 0x00, 5, 0, 0, 0, 0xfd, 0xff, 0xff, 0xff] := by decide
+example : DalvikPayload.payloadBytes [0xAA] (.fillArrayData 1 3 [7, 8, 9]) =
+    [0x00, 0x03, 0x01, 0x00, 0x03, 0x00, 0x00, 0x00, 7, 8, 9, 0xAA] := by decide
+example : DalvikPayload.WellFormed (.sparseSwitch [1, -2] [8, 12]) ∧
+    DalvikPayload.PaddingOK (.sparseSwitch [1, -2] [8, 12]) [] := by
+  simp [DalvikPayload.WellFormed, DalvikPayload.PaddingOK, DalvikPayload.isInt]
+example : itemOf [0xAA] (.fillArrayData 1 3 [7, 8, 9]) = .fill 1 3 [7, 8, 9, 0xAA] := rfl
 
 end AgVerif.C02
